@@ -103,6 +103,13 @@ def SRInvAt (p : SRP) (s : ChanSys) (sh : SRShape) : Prop := s = srSys p sh ∧ 
 def SRInv (p : SRP) (s : ChanSys) : Prop :=
   p.hd ≠ 0 ∧ (p.v = 1 ∨ p.v = 2) ∧ ∃ sh, SRInvAt p s sh
 
+/-- (work in progress, predates the repair of the `Dropped(0)` arm) the extra hypothesis of the `_partial` theorem: the body does not start an operation on an end
+whose peer it has been told is gone (the host's end is done) unless the runtime knows (its `done` flag
+keeps the call away from the host) -/
+def NoUseAfterDropped (s : ChanSys) : CLabel → Prop
+  | .poll _ => s.g.offer.isSome = true → s.h.e.st ≠ .done
+  | _ => True
+
 def SRLegal (p : SRP) (s : ChanSys) (l : CLabel) : Prop :=
   CLegal s l ∧ NoUseAfterDropped s l ∧ (∀ h1 h2, l = .opn h1 h2 → h1 = p.hd)
 
@@ -122,7 +129,7 @@ theorem srUpdate_blocked (p : RSt) : streamReadUpdate p 4294967295 = .ok (.inr p
 theorem srUpdate_ok3 (p : SRP) (buf : List Nat) (spare : Nat) (slab : Bool) (mem : List Nat) (base k : Nat) (hbase : base < 3)
     (hk : k ≤ rOffer spare) :
     streamReadUpdate (p.rst buf spare slab mem false) (base + 16 * k) =
-      .ok (.inl (sresOf base k, p.rst (buf ++ mem.take k) (spare - k) false [] (base == 1 && k != 0)))
+      .ok (.inl (sresOf base k, p.rst (buf ++ mem.take k) (spare - k) false [] (base == 1)))
         ((if p.kind.lowers then (mem.take k).map (evLi p.c) else []) ++ (if slab then [Ev.free p.c] else [])) := by
   have hks : k ≤ spare := by simp only [rOffer] at hk; omega
   have hk2 : k ≤ 268435455 := by simp only [rOffer, Limits.streamMaxLength] at hk; omega
